@@ -102,7 +102,7 @@ CLAIMED = {
         "permutation, string order proved transitive), without zero or duplicate entries; current + orders = target for every asset; a zero "
         "weight sizes to zero under both sizers (liquidation). Tied to /repo by 1-4 successive rebalances on a real SimulatedBroker with "
         "real PCM and sizers (orders filled at the next open, holdings compared with the target), each PCM call replayed on the model.",
-   note=TRUST + "'holdings equal the target after the fills' composes this with C04 (every order filled once, in full) and C02 (holdings = net of fills); the composition is exercised end-to-end by the correspondence runs.",
+   note=TRUST + "'holdings equal the target after the fills' is proved on the rules simulator (after_the_next_open_holdings_equal_the_target: filling the pending orders in any order, in particular sells first, lands every asset on its target) and carries over to sessions through the C08 refinement theorems; on the implementation it is exercised end-to-end by the correspondence runs.",
    design="7/C09", technique="Coq proof (permutation / sortedness / association-list lemmas) + model/implementation correspondence check"),
  'C10': dict(
    text="Machine-checked theorems over rationals (props/C10.v): for every equity, weight >= 0 and price > 0 the target is the whole number "
@@ -163,10 +163,15 @@ CLAIMED = {
  'C19': dict(
    text="Machine-checked theorems (props/C19.v): dynamic-universe membership iff an entry time e <= t exists (inclusive; no entry = never), "
         "static universe = its list, the universe-driven alpha weights exactly the members, fixed-weight optimiser = identity, equal-weight "
-        "optimiser = scale/N each summing to the scale on the same keys. Tied to /repo by the real universes queried around every entry "
-        "instant and the real optimisers on random dictionaries; at a rebalance every member gets the signal weight and a non-member appears only if already held, with weight zero; whole sessions (first weight/order/position at the first rebalance at or after entry) are exercised by the backtest correspondence.",
-   note=TRUST + "Session-level statements are covered by the backtest model/correspondence (C07/C08/C14 machinery), see DESIGN.md.",
-   design="7/C19", technique="Coq proof (list membership / field arithmetic) + model/implementation correspondence check"),
+        "optimiser = scale/N each summing to the scale on the same keys; and at the level of WHOLE SESSIONS (every configuration, schedule, "
+        "sizing mode, fee model and market, whether or not the run raises later): no order is filled - so no position exists - in an asset "
+        "before its entry time, the allocation row recorded at t lists exactly the assets with entry <= t each with the signal weight, and "
+        "in a run that does not raise every scheduled instant past the burn-in has such a row (included from the first rebalance onward); "
+        "proved from a frame theorem on the broker (an update, whatever its outcome, touches no asset without a position or pending order). "
+        "Tied to /repo by the real universes queried around every entry instant, the real optimisers on random dictionaries, real PCM "
+        "rebalances and whole real sessions with dynamic universes replayed on the model.",
+   note=TRUST + "The session theorems are about the session model (Backtest.v), which the C07/C08/C14/C18 correspondence runs tie to BacktestTradingSession; they are stated for the universe-driven alpha model (SingleSignalAlphaModel), as the property is.",
+   design="7/C19", technique="Coq proof (list membership / field arithmetic; invariant over the event list of the session model with a broker frame lemma) + model/implementation correspondence check"),
 }
 
 def main():
